@@ -370,6 +370,41 @@ RESULT = (sq(3), sq(3), calls, dict(d), p(4))
 import json
 RESULT = json.dumps({"b": 1, "a": 2}, sort_keys=True) == json.dumps({"a": 2, "b": 1}, sort_keys=True), json.dumps({"a": 1}, sort_keys=True) == json.dumps({"a": 2}, sort_keys=True)
 ''', "(True, False)"),
+    ("value-eq-with-identity-hash-in-list-set-dict", '''
+class Base:
+    pass
+class V(Base):
+    def __init__(self, k): self.k = k
+    def __eq__(self, other): return isinstance(other, V) and self.k == other.k
+    __hash__ = Base.__hash__
+class W:
+    def __init__(self, k): self.k = k
+    def __eq__(self, other): return isinstance(other, W) and self.k == other.k
+    def __hash__(self): return hash(self.k)
+a, b = V(1), V(1)
+c, d = W(1), W(1)
+s = {a}; dd = {a: 1}; t = {c}
+s.add(b); t.add(d)
+RESULT = (b in [a], b in s and len(s), b in {a}, b in dd, len({a, b}), d in [c], d in {c}, len(t), a == b, hash(a) == hash(a))
+''', "(True, 2, False, False, 2, True, True, 1, True, True)"),
+    ("vars-and-dunder-dict-are-the-live-instance-dictionary", '''
+class A:
+    def __init__(self): self.x = 1; self._t = 2
+a = A()
+d = vars(a)
+del d["_t"]
+d["y"] = 5
+a.__dict__["z"] = 6
+c = dict(vars(a)); c["w"] = 0
+a.x = 9
+RESULT = (sorted(vars(a)), hasattr(a, "_t"), a.y, a.z, d["x"], hasattr(a, "w"), vars(a) is a.__dict__)
+''', "(['x', 'y', 'z'], False, 5, 6, 9, False, True)"),
+    ("format-missing-keyword", '''
+RESULT = "{a}-{b}".format(a=1)
+''', "raise KeyError"),
+    ("format-missing-position", '''
+RESULT = "{}-{}".format(1)
+''', "raise IndexError"),
 ]
 
 
